@@ -136,6 +136,8 @@ type World struct {
 	started          bool
 	regLost          []string
 	lcSnap           map[int]map[string]int
+	udp              *udpState
+	udpDrained       bool
 	userFds          []int
 	dialQueue        []int
 	stopPending      int
@@ -241,6 +243,8 @@ func (w *World) nonTrivial() bool {
 		return w.probes["fd-number-reused"] > 0 || w.closedN > 0
 	case "C19":
 		return w.probes["control-calls"] > 0
+	case "C08":
+		return w.probes["udp-datagrams-handled"] > 1
 	case "C14":
 		return w.probes["registry-snapshots"] > 2 && w.closedN > 0
 	case "C15":
@@ -300,6 +304,9 @@ func (w *World) protoAddr() (string, string) {
 		return "unix://" + c.Host, "unix:" + c.Host
 	default:
 		pa := fmt.Sprintf("%s://%s:9000", c.Network, c.Host)
+		if c.Network == "udp6" {
+			pa = fmt.Sprintf("udp://%s:9000", c.Host)
+		}
 		// the bind key is computed by the kernel from the sockaddr gnet builds
 		return pa, ""
 	}
@@ -335,6 +342,10 @@ func (w *World) run() {
 	}
 	k.SetFaults(p.Faults)
 	w.lcSnap = map[int]map[string]int{}
+	w.udp = &udpState{ids: map[int]int{}, handled: map[int]int{}, lastRecv: map[string]int{}, matched: map[int]bool{}, readBuf: p.Cfg.ReadBuf}
+	if w.udp.readBuf <= 0 {
+		w.udp.readBuf = 65536
+	}
 	k.OnAccept = w.lcSnapshot
 	k.Trace = func(l string) { w.h.Add(l) }
 	if runner.Trace {
@@ -426,6 +437,7 @@ func (w *World) events() []vsched.Event {
 	if !w.stopRequested && !w.stopEventUsed && w.booted && w.p.Stop.AtStep > 0 && w.s.Step() >= w.p.Stop.AtStep && (w.p.Stop.Source == "engine.Stop" || w.p.Stop.Source == "gnet.Stop") {
 		evs = append(evs, vsched.Event{Name: "stop", Run: func() { w.stopEventUsed = true; w.requestStop() }})
 	}
+	evs = append(evs, w.udpEvents()...)
 	for _, fd := range w.k.Canaries() {
 		fd := fd
 		if w.k.Rand().Chance(1, 8) {
@@ -755,6 +767,10 @@ func (w *World) onQuiescent(idle int) int {
 			return vsched.QAgain
 		}
 		w.drainOracles()
+		if !w.stopRequested && !w.stopEverAsked && w.p.UDP != nil && w.udp.next >= len(w.p.UDP.Dgrams) {
+			w.udpDrained = true
+			w.udpFinal()
+		}
 		w.ph = phShutdown
 		w.logf("phase shutdown at step %d", w.s.Step())
 		if !w.stopRequested && w.booted {
@@ -804,6 +820,7 @@ func (w *World) finish() {
 	w.simNanos = w.s.SimNanos()
 	w.finalOracles()
 	w.lbOracle()
+	w.udpFinal()
 	for k, v := range w.k.Stats {
 		w.probes[k] += v
 	}
